@@ -17,7 +17,8 @@
 (***************************************************************************)
 EXTENDS ModbusPdu, Mbap, Rtu, TLC
 
-CONSTANTS TxMod            \* 65536; scaled down in Client_MC
+CONSTANTS TxMod,           \* 65536; scaled down in Client_MC
+          Bug              \* "none"; negative controls: "notxcheck", "stalereader", "nocounterreset"
 
 VARIABLES s, out
 
@@ -138,7 +139,7 @@ AwaitFrame ==
      IF h.st = "err" THEN
           /\ s' = CompleteIn(Ending(s1, "BadFrame"), s.cur.req.style, Done(s.cur.r, "badframe", 0, <<>>))
           /\ out' = CompleteOut(s.cur.req.style, Done(s.cur.r, "badframe", 0, <<>>))
-     ELSE IF s.framing = "tcp" /\ h.tx # s.cur.tx THEN
+     ELSE IF s.framing = "tcp" /\ h.tx # s.cur.tx /\ Bug # "notxcheck" THEN
           \* a late reply, a duplicate, an unsolicited frame: discarded, keep waiting
           s' = s1 /\ out' = NoOut
      ELSE /\ s' = CompleteIn([s1 EXCEPT !.pc = "idle", !.cur = NoCur, !.toCount = 0], s.cur.req.style,
@@ -219,8 +220,10 @@ FailClosed == GFailClosed /\ s' = [s EXCEPT !.pc = "stopping"] /\ out' = NoOut
 GConnected == s.pc = "connecting" /\ s.connRes = "ok"
 Connected ==
   /\ GConnected
-  /\ s' = [s EXCEPT !.pc = "idle", !.conn = "open", !.retryCur = s.rmin, !.toCount = 0,
-                    !.rbuf = <<>>, !.eof = FALSE, !.wfail = FALSE, !.connRes = "none"]
+  /\ s' = [s EXCEPT !.pc = "idle", !.conn = "open", !.retryCur = s.rmin,
+                    !.toCount = IF Bug = "nocounterreset" THEN s.toCount ELSE 0,
+                    !.rbuf = IF Bug = "stalereader" THEN s.rbuf ELSE <<>>,
+                    !.eof = FALSE, !.wfail = FALSE, !.connRes = "none"]
   /\ out' = Listener("Connected", 0)
 
 GConnFailed == s.pc = "connecting" /\ s.connRes = "err"
